@@ -1263,12 +1263,29 @@ pub fn corpus() -> Vec<CorpusProg> {
         ],
         safe(true, &["singleton-zip", "count", "bounded-source", "known-finding"]),
     );
+    // reproducers that only type-check while the finding exists (a type hole): they carry their
+    // own source and are compiled as separate modules, so that a repaired tree turns them into
+    // stage-1 exclusions instead of breaking the corpus build
     b.add(
         "k_bounded_join_unbounded_count",
         &["(i64,i64)"],
         &[],
         &[("usize", Seq, None, Ref::Eventual(|f| enc(vec![kvs(f, 0).iter().filter(|(k, _)| *k == 1).count() * 2])))],
         safe(true, &["join", "count", "bounded-source", "known-finding"]),
+    );
+    b.progs.last_mut().unwrap().spec.src = Some(
+        r#"// `bounded.join(unbounded)` is typed Bounded (result boundedness = left side's), although it
+// keeps growing with the unbounded right side; bounded consumers (count -> fold_no_replay) are
+// then compiled for a one-shot collection
+pub fn k_bounded_join_unbounded_count<'a>(p: &Process<'a, ()>) {
+    let b = p.source_iter(q!(vec![(1i64, 6i64), (1, 7)]));
+    b.join(p.embedded_input::<(i64, i64)>("in0"))
+        .count()
+        .into_stream()
+        .embedded_output("out0");
+}
+"#
+        .to_string(),
     );
     b.add(
         "k_bounded_join_unbounded_selfjoin",
@@ -1285,6 +1302,21 @@ pub fn corpus() -> Vec<CorpusProg> {
             }),
         )],
         safe(true, &["join", "bounded-source", "known-finding"]),
+    );
+    b.progs.last_mut().unwrap().spec.src = Some(
+        r#"// the mis-typed "bounded" join result used as the (bounded) build side of another join: the
+// code generator picks join_multiset_half without symmetric state
+pub fn k_bounded_join_unbounded_selfjoin<'a>(p: &Process<'a, ()>) {
+    let b = p.source_iter(q!(vec![(1i64, 6i64), (1, 7)]));
+    let j = b
+        .join(p.embedded_input::<(i64, i64)>("in0"))
+        .map(q!(|(k, (a, b)): (i64, (i64, i64))| (k, a * 10 + b)));
+    let jj: Stream<(i64, (i64, i64)), Process<'a, ()>, Bounded, NoOrder, ExactlyOnce> = j.clone().join(j);
+    jj.assume_ordering::<TotalOrder>(nondet!(/** terminal observation adapter: multiset */))
+        .embedded_output("out0");
+}
+"#
+        .to_string(),
     );
     let _ = json!(null);
     b.progs
